@@ -11,6 +11,8 @@
   keys and (bk, tk) are the section names `kind` prescribes.
 -/
 import YtkProofs.K8s
+import YtkProofs.RebuildB
+import YtkProofs.ValidB
 
 namespace Ytk.C17
 open Ytk.K8s
@@ -161,20 +163,68 @@ theorem embedded_props_exact (d : Doc) (h : WFm d.m) (kvs : AMap Node) (hcb : d.
     have := beforeSave_other hw (k := k) (by rw [e4]; exact hb) (by rw [e5]; exact ht)
     rw [this, e3]
 
-/-
-  Not proved here (stated, covered by the correspondence harness only):
+/-- a document representable as properties: valid, path-safe keys, every leaf a string, no empty
+    list / container below the root -/
+structure Representable (kvs : AMap Node) : Prop where
+  valid : (Node.cont kvs).Valid
+  safe : (Node.cont kvs).SafeKeys
+  noEmpty : ∀ p ∈ kvs, p.2.NoEmpty
+  strings : ∀ s ∈ Node.leaves (.cont kvs), s.ty = "string"
 
-  * `embedded_props_roundtrip` — for a document representable as properties (string leaves, no
-    empty container / list below the root, path-safe keys):
-      `docSave .props d = .ok (d2, file) → openDoc .props file = .ok d3 → d3.cb = d.cb`.
-    With `embedded_props_exact` this reduces to "rebuilding a document from its flattened
-    pairs with AddValueAt in sorted key order gives the document back", which is C02/C16's
-    rebuild theorem about `Dom.addValueAt` / `Dom.flatten`, not a fact about the k8s code.
-    (A document holding an empty list / container is not representable: `l: [[], true]`
-    flattens to `l[1]` only and reopens as `l: [null, true]`; the harness asks the equality
-    of representable documents only and compares the others with the model.)
+/-- embedded properties round trip: in properties mode, for a representable document,
+    reopen(Save(doc)) is the document.  (Save writes the flattened Go map as string items —
+    `embedded_props_exact`; reopening inserts them with AddValueAt in key order; that this
+    rebuilds the document is C02's rebuild theorem, `rebuild_flattenMap_exact`.)
+    A document holding an empty list / container is not representable: `l: [[], true]` flattens
+    to `l[1]` only and reopens as `l: [null, true]`; non-string leaves reopen as strings. -/
+theorem embedded_props_roundtrip (d : Doc) (h : WFm d.m) (kvs : AMap Node) (hcb : d.cb = .cont kvs)
+    (hr : Representable kvs) :
+    ∃ d2 file d3, docSave .props d = .ok (d2, file) ∧ openDoc .props file = .ok d3 ∧ d3.cb = d.cb := by
+  obtain ⟨e1, e2, e3, e4, e5⟩ := encodeEmbeddedProps_spec d.m h.str_sorted kvs
+  have hw : WFm (encodeEmbeddedProps d.m (.cont kvs)) := by
+    refine ⟨e3 ▸ h.doc_sorted, ?_, e2 ▸ h.bin_sorted, ?_⟩
+    · rw [e1]; exact sorted_map_val _ (AMap.sorted_ofList _)
+    · rw [e3, e4, e5]; exact h.keys
+  have hsave : docSave .props d =
+      .ok (⟨d.cb, (writeTo (encodeEmbeddedProps d.m (.cont kvs))).1⟩,
+        (writeTo (encodeEmbeddedProps d.m (.cont kvs))).2) := by
+    simp only [docSave, encodeWith, hcb]
+  refine ⟨_, _, ⟨decodeEmbeddedProps ⟨(beforeSave (encodeEmbeddedProps d.m (.cont kvs))).doc,
+      (encodeEmbeddedProps d.m (.cont kvs)).str, (encodeEmbeddedProps d.m (.cont kvs)).bin,
+      (encodeEmbeddedProps d.m (.cont kvs)).bk, (encodeEmbeddedProps d.m (.cont kvs)).tk⟩,
+    ⟨(beforeSave (encodeEmbeddedProps d.m (.cont kvs))).doc,
+      (encodeEmbeddedProps d.m (.cont kvs)).str, (encodeEmbeddedProps d.m (.cont kvs)).bin,
+      (encodeEmbeddedProps d.m (.cont kvs)).bk, (encodeEmbeddedProps d.m (.cont kvs)).tk⟩⟩, hsave, ?_, ?_⟩
+  · rw [openDoc, load_writeTo hw]
+    simp only [decodeWith]
+  · simp only [decodeEmbeddedProps]
+    rw [hcb, e1]
+    congr 1
+    have hmap : ((flattenMap kvs).map (fun p => (p.1, p.2.text))).map
+        (fun p => (p.1, (⟨"string", p.2⟩ : Scalar))) = flattenMap kvs := by
+      rw [List.map_map]
+      conv => rhs; rw [← List.map_id (flattenMap kvs)]
+      apply List.map_congr_left
+      intro p hp
+      have hp' : p ∈ flatten kvs := (mem_flattenMap_iff kvs hr.valid hr.safe p).mp hp
+      have hty : p.2.ty = "string" := by
+        apply hr.strings
+        have hfv : (flatten kvs).map (·.2) = Node.leaves (.cont kvs) := by
+          simpa [flatten, Node.leaves] using flattenKvs_values kvs ""
+        rw [← hfv]
+        exact List.mem_map.mpr ⟨p, hp', rfl⟩
+      obtain ⟨k, ⟨ty, text⟩⟩ := p
+      simp only at hty
+      simp [hty]
+    have := rebuild_flattenMap_exact kvs hr.valid hr.safe hr.noEmpty
+    rw [← hmap] at this
+    simpa [rebuild, List.foldl_map] using this
+
+/-
+  Hypotheses, not proved here (validated by the correspondence harness only):
+
   * the YAML codec contract for the manifest body (`decode (encode v) = v` on written bodies)
-    and the embedded text codecs' contract (`CodecRoundTrips`) are hypotheses.
+    and the embedded text codecs' contract (`CodecRoundTrips`).
 -/
 
 /-! ### non-vacuity -/
@@ -184,6 +234,16 @@ def exSecret : Val := .obj [
   ("kind", strVal "Secret"),
   ("metadata", .obj [("name", strVal "x")]),
   ("stringData", .obj [("n", .sc ⟨"int", "1"⟩), ("t", strVal "line1\nline2")])]
+
+def exProps : AMap Node :=
+  [("db", .cont [("hosts", .list [.leaf ⟨"string", "h1"⟩, .leaf ⟨"string", "h2"⟩]),
+                 ("opts", .list [.cont [("k", .leaf ⟨"string", "v"⟩)], .list [.leaf ⟨"string", ""⟩]])]),
+   ("name", .leaf ⟨"string", "x"⟩)]
+
+/-- a document with lists, a container and a list inside a list is representable -/
+theorem nonvacuous_representable : Representable exProps :=
+  ⟨Node.validB_sound _ (by decide +kernel), Node.safeB_sound _ (by decide +kernel),
+   noEmptyKvsB_sound _ (by decide +kernel), by decide +kernel⟩
 
 /-- a concrete Secret loads: binary items decoded byte-exactly (incl. an empty one), a
     numeric-looking text item read as text -/
